@@ -351,24 +351,6 @@ func checkC09(p *core.Program, r *core.Report) {
 		if len(accesses) == 0 {
 			continue
 		}
-		var locks, unlocks []ssa.Instruction
-		deferred := false
-		for _, cs := range core.Calls(fn, false) {
-			o := core.CalleeObj(cs.Common())
-			if o == nil {
-				continue
-			}
-			switch core.ObjName(o) {
-			case "sync.Mutex.Lock", "sync.RWMutex.Lock":
-				locks = append(locks, cs.Instr)
-			case "sync.Mutex.Unlock", "sync.RWMutex.Unlock":
-				if _, isDefer := cs.Instr.(*ssa.Defer); isDefer {
-					deferred = true
-				} else {
-					unlocks = append(unlocks, cs.Instr)
-				}
-			}
-		}
 		for _, acc := range accesses {
 			nAcc++
 			k := core.FuncName(fn) + "/cache-access"
@@ -377,29 +359,8 @@ func checkC09(p *core.Program, r *core.Report) {
 			if per[k] > 1 {
 				key = fmt.Sprintf("%s#%d", k, per[k])
 			}
-			held := false
-			for _, l := range locks {
-				if core.InstrDominates(l, acc) {
-					held = true
-				}
-			}
-			released := ""
-			for _, u := range unlocks {
-				if instrReaches(u, acc) {
-					released = p.Pos(u.Pos())
-				}
-			}
-			ok := held && released == "" && (deferred || len(unlocks) > 0)
-			detail := ""
-			switch {
-			case !held:
-				detail = "no mutex.Lock() dominates this access"
-			case released != "":
-				detail = "the mutex is released at " + released + " on a path that reaches this access"
-			case !deferred && len(unlocks) == 0:
-				detail = "the mutex is never released"
-			}
-			r.Check(ok, "R2", key, p.Pos(acc.Pos()), "under mutex.Lock() with the lock still held", "flow cache accessed outside the critical section: "+detail)
+			detail := c09LockHeld(p, fn, acc, 0)
+			r.Check(detail == "", "R2", key, p.Pos(acc.Pos()), "under mutex.Lock() with the lock still held (in this function, or at every call of this unexported helper)", "flow cache accessed outside the critical section: "+detail)
 		}
 	}
 	r.Require("flow_cache_accesses", nAcc, 5)
@@ -585,4 +546,69 @@ func c09R4(p *core.Program, r *core.Report) {
 	}
 	r.Require("localizable_writer_calls", n, 1)
 	_ = token.ADD
+}
+
+// c09LockHeld returns "" when a mutex is held at `at` in fn: a Lock() dominates it and no explicit Unlock can reach it
+// (the release is deferred or comes later) — or fn is an unexported helper and the lock is held at every one of its
+// call sites. Otherwise what is wrong.
+func c09LockHeld(p *core.Program, fn *ssa.Function, at ssa.Instruction, depth int) string {
+	var locks, unlocks []ssa.Instruction
+	deferred := false
+	for _, cs := range core.Calls(fn, false) {
+		o := core.CalleeObj(cs.Common())
+		if o == nil {
+			continue
+		}
+		switch core.ObjName(o) {
+		case "sync.Mutex.Lock", "sync.RWMutex.Lock":
+			locks = append(locks, cs.Instr)
+		case "sync.Mutex.Unlock", "sync.RWMutex.Unlock":
+			if _, isDefer := cs.Instr.(*ssa.Defer); isDefer {
+				deferred = true
+			} else {
+				unlocks = append(unlocks, cs.Instr)
+			}
+		}
+	}
+	held := false
+	for _, l := range locks {
+		if core.InstrDominates(l, at) {
+			held = true
+		}
+	}
+	released := ""
+	for _, u := range unlocks {
+		if instrReaches(u, at) {
+			released = p.Pos(u.Pos())
+		}
+	}
+	switch {
+	case held && released == "" && (deferred || len(unlocks) > 0):
+		return ""
+	case held && released != "":
+		return "the mutex is released at " + released + " on a path that reaches this access"
+	case held:
+		return "the mutex is never released"
+	}
+	// an unexported helper: the lock must be held at every call site
+	root := fn
+	for root.Parent() != nil {
+		root = root.Parent()
+	}
+	if depth < 2 && root.Object() != nil && !root.Object().Exported() {
+		n := 0
+		for _, cs := range p.CallsTo(root) {
+			if p.IsTestFile(cs.Pos()) {
+				continue
+			}
+			n++
+			if d := c09LockHeld(p, cs.Caller, cs.Instr, depth+1); d != "" {
+				return "called from " + core.FuncName(cs.Caller) + " where " + d
+			}
+		}
+		if n > 0 {
+			return ""
+		}
+	}
+	return "no mutex.Lock() dominates this access"
 }
